@@ -112,7 +112,17 @@ def cd_int_blocks(a, b):
     return int(round(4 * cd_blocks(a, b)))
 
 
-CUSTOM = {"half": cd_half, "double": cd_double, "triple": cd_triple, "lenpen": cd_lenpen,
+def make_scaled(c, lam=0.0):
+    """Factory: all closures share one __module__/__qualname__ (as lambdas or parameterised distances in user code do),
+    so anything that identifies a distance function by name instead of by identity confuses them."""
+    def scaled(a, b):
+        a, b = _sorted(a, b)
+        return c * _O.lev(a, b) + lam * abs(len(a) - len(b))
+    return scaled
+
+
+CUSTOM = {"half": make_scaled(0.5), "double": make_scaled(2), "triple": make_scaled(3), "lenpen": make_scaled(1, 1.5),
+          "one_and_half": make_scaled(1.5), "unit": make_scaled(1),
           "discrete": cd_discrete, "blocks": cd_blocks, "int_blocks": cd_int_blocks}
 
 
